@@ -6,7 +6,7 @@ From Coq Require Import String.
 From Coq Require Import List Arith ZArith.
 Import ListNotations.
 From YP Require Import Base.Str Term.Term Unify.Unify Unify.UnifyGen Lang.Ast Comp.IR Comp.CompileClause Sem.Machine
-  Engine.GenMachine Engine.Restore Engine.RunGen Engine.IRMachine Engine.Refine Engine.RefineCompiled Engine.RunMachine.
+  Engine.GenMachine Engine.Restore Engine.RunGen Engine.IRMachine Engine.QueryFacts Engine.Refine Engine.RefineCompiled Engine.RunMachine.
 
 (* A unification generator created under ANY heap h and driven by ANY sequence of
    __next__ / close() (= drop) operations:
@@ -183,6 +183,24 @@ Theorem C03_machine_refines_irsem_fuel : forall p ir, compile_program p = Some i
 Proof. exact compiled_machine_refines_irsem_fuel. Qed.
 Print Assumptions C03_machine_refines_irsem_fuel.
 
+(* ... and with ANY database of dynamic facts: the big-step side is QueryFacts.queryF = Sem.Machine.query
+   with the facts of name/arity tried first, each matched against a copy with new variables
+   (queryF_nofacts: with an empty database it is Sem.Machine.query) *)
+Theorem C03_machine_refines_facts : forall p ir, compile_program p = Some ir ->
+  forall (DB : str -> nat -> list fact) d name args nx h k, wf h ->
+  exists N hf itf, forall n, N <= n ->
+    m_nexts ir DB nouser n d k h (m_query ir DB nouser name args nx) =
+    Some (hf, itf, map sto (firstn k (fst (queryF ir DB d name args (mkst h nx)))),
+          if Nat.leb k (length (fst (queryF ir DB d name args (mkst h nx)))) then RYield
+          else rend (snd (queryF ir DB d name args (mkst h nx))))
+    /\ (length (fst (queryF ir DB d name args (mkst h nx))) < k -> hf = h).
+Proof. exact compiled_machine_refines_facts. Qed.
+Print Assumptions C03_machine_refines_facts.
+
+Theorem C03_queryF_nofacts : forall p n name args s, queryF p (fun _ _ => []) n name args s = query n p name args s.
+Proof. exact queryF_nofacts. Qed.
+Print Assumptions C03_queryF_nofacts.
+
 (* non-vacuity: a query three frames deep yields an answer with two new bindings on top of a
    non-empty heap, and asking for the next answer makes a user predicate raise; the heap is then
    the initial one *)
@@ -194,4 +212,7 @@ Proof. exact ex_raise. Qed.
    compiled by the model compiler; the machine yields two answers (X = a, X = c) whose stores are
    those of the big-step semantics, then stops with the empty heap *)
 Example C03_refines_nonvacuous : refine_example = true.
+Proof. vm_compute. reflexivity. Qed.
+
+Example C03_refines_facts_nonvacuous : refine_example_facts = true.
 Proof. vm_compute. reflexivity. Qed.
